@@ -73,6 +73,13 @@ Theorem C13_denotation_unique :
     JText fparse s v -> JText fparse s v' -> v = v'.
 Proof. exact JText_functional. Qed.
 
+(* --- every string and key of a parsed value consists of Unicode scalar values when the input does (&str): what the model
+       pushes for \uXXXX escapes and surrogate pairs is always a valid `char` --- *)
+Theorem C13_parse_strings_scalar :
+  forall (F : Type) (fparse : str -> option F) (s : str) (v : value F),
+    parse fparse s = Ok v -> Forall scalar s -> strings_all F scalar v.
+Proof. exact parse_strings_scalar. Qed.
+
 (* --- JText is a sub-language of the full RFC 8259 syntax --- *)
 Theorem C13_text_is_rfc_syntax :
   forall (F : Type) (fparse : str -> option F) (s : str) (v : value F), JText fparse s v -> JSyntax fparse s.
@@ -230,6 +237,7 @@ Print Assumptions C13_text_iff_syntax_without_lone_surrogates.
 Print Assumptions C13_parse_max_depth_sound.
 Print Assumptions C13_parse_max_depth_complete.
 Print Assumptions C13_denotation_unique.
+Print Assumptions C13_parse_strings_scalar.
 Print Assumptions C13_text_is_rfc_syntax.
 Print Assumptions C13_number_grammar.
 Print Assumptions C13_serialize_valid.
